@@ -7,7 +7,8 @@
 //!
 //!   harness explore <family>                      all pairs / triples of the family's operations:
 //!                                                 exhaustive DFS over schedules of each body
-//!   harness replay <family> <i> <j> <k|-> <file>  re-executes one persisted schedule
+//!   harness replay <family> <combo> <file>        re-executes one persisted schedule (combo: thread
+//!                                                 programs separated by ',', operations by '+')
 //!
 //! Body of one exploration (operations a, b [, c] of the family; r = a fixed reset operation):
 //!     r(); a();                       -- warm-up: start from a non-initial, deterministic state
@@ -170,24 +171,31 @@ fn config(dir: &str) -> shuttle::Config {
     c
 }
 
-fn body(ops: &Arc<Vec<Op>>, reset: &Arc<Box<dyn Fn() -> String + Send + Sync>>, exp: &Arc<Vec<String>>, exp_reset: &Arc<String>, idx: &[usize]) -> impl Fn() + Send + Sync + 'static {
-    let (ops, reset, exp, exp_reset, idx) = (ops.clone(), reset.clone(), exp.clone(), exp_reset.clone(), idx.to_vec());
+/// `prog[t]` = the operations thread t performs, in order; the warm-up runs the first operation
+/// of thread 0, the epilogue runs every operation once more on the main thread
+fn body(ops: &Arc<Vec<Op>>, reset: &Arc<Box<dyn Fn() -> String + Send + Sync>>, exp: &Arc<Vec<String>>, exp_reset: &Arc<String>, prog: &[Vec<usize>]) -> impl Fn() + Send + Sync + 'static {
+    let (ops, reset, exp, exp_reset, prog) = (ops.clone(), reset.clone(), exp.clone(), exp_reset.clone(), prog.to_vec());
     move || {
         check_eq!(reset(), exp_reset.to_string(), "reset operation (warm-up)");
-        check_eq!((ops[idx[0]].1)(), exp[idx[0]].clone(), "{} (warm-up)", ops[idx[0]].0);
-        let hs: Vec<_> = idx
+        let w = prog[0][0];
+        check_eq!((ops[w].1)(), exp[w].clone(), "{} (warm-up)", ops[w].0);
+        let hs: Vec<_> = prog
             .iter()
-            .map(|&i| {
-                let ops = ops.clone();
-                shuttle::thread::spawn(move || (ops[i].1)())
+            .map(|p| {
+                let (ops, p) = (ops.clone(), p.clone());
+                shuttle::thread::spawn(move || p.iter().map(|&i| (ops[i].1)()).collect::<Vec<String>>())
             })
             .collect();
-        let rs: Vec<String> = hs.into_iter().map(|h| h.join().unwrap()).collect();
-        for (n, &i) in idx.iter().enumerate() {
-            check_eq!(rs[n].clone(), exp[i].clone(), "{} (thread {} of {})", ops[i].0, n + 1, idx.len());
+        let rs: Vec<Vec<String>> = hs.into_iter().map(|h| h.join().unwrap()).collect();
+        for (n, p) in prog.iter().enumerate() {
+            for (k, &i) in p.iter().enumerate() {
+                check_eq!(rs[n][k].clone(), exp[i].clone(), "{} (call {} of thread {} of {})", ops[i].0, k + 1, n + 1, prog.len());
+            }
         }
-        for &i in &idx {
-            check_eq!((ops[i].1)(), exp[i].clone(), "{} (after the threads joined)", ops[i].0);
+        for p in &prog {
+            for &i in p {
+                check_eq!((ops[i].1)(), exp[i].clone(), "{} (after the threads joined)", ops[i].0);
+            }
         }
     }
 }
@@ -253,7 +261,7 @@ fn sequential(ops: &Arc<Vec<Op>>, reset: &Arc<Box<dyn Fn() -> String + Send + Sy
 fn main() {
     let args: Vec<String> = std::env::args().collect();
     if args.len() < 3 {
-        eprintln!("usage: harness explore <family> <schedule-dir> | harness replay <family> <i> <j> <k|-> <schedule-file>");
+        eprintln!("usage: harness explore <family> <schedule-dir> | harness replay <family> <combo> <schedule-file>");
         std::process::exit(2);
     }
     let family = args[2].as_str();
@@ -275,17 +283,38 @@ fn main() {
             };
             let (exp, exp_reset) = (Arc::new(exp), Arc::new(exp_reset));
             let n = ops.len();
-            let mut combos: Vec<Vec<usize>> = vec![];
+            let mut combos: Vec<Vec<Vec<usize>>> = vec![];
             for i in 0..n {
                 for j in 0..n {
-                    combos.push(vec![i, j]);
+                    combos.push(vec![vec![i], vec![j]]);
                 }
             }
             let m = n.min(5);
             for i in 0..m {
                 for j in 0..m {
                     for k in 0..m {
-                        combos.push(vec![i, j, k]);
+                        combos.push(vec![vec![i], vec![j], vec![k]]);
+                    }
+                }
+            }
+            if args.iter().any(|a| a == "--deep") {
+                // two calls per thread: T1: a; b || T2: c; d  over the first four operations,
+                // and T1: a; b || T2: b; a over all pairs
+                let q = n.min(4);
+                for a in 0..q {
+                    for b in 0..q {
+                        for c in 0..q {
+                            for d in 0..q {
+                                combos.push(vec![vec![a, b], vec![c, d]]);
+                            }
+                        }
+                    }
+                }
+                for a in 0..n {
+                    for b in 0..n {
+                        if a >= q || b >= q {
+                            combos.push(vec![vec![a, b], vec![b, a]]);
+                        }
                     }
                 }
             }
@@ -320,9 +349,9 @@ fn main() {
                         files.sort();
                         let file = files.last().map(|p| p.display().to_string()).unwrap_or_default();
                         failure = format!(
-                            ",\"failure\":{{\"combo\":[{}],\"ops\":[{}],\"message\":\"{}\",\"schedule_file\":\"{}\"}}",
-                            c.iter().map(|x| x.to_string()).collect::<Vec<_>>().join(","),
-                            c.iter().map(|&x| format!("\"{}\"", esc(&ops[x].0))).collect::<Vec<_>>().join(","),
+                            ",\"failure\":{{\"combo\":\"{}\",\"ops\":[{}],\"message\":\"{}\",\"schedule_file\":\"{}\"}}",
+                            c.iter().map(|p| p.iter().map(|x| x.to_string()).collect::<Vec<_>>().join("+")).collect::<Vec<_>>().join(","),
+                            c.iter().map(|p| format!("\"{}\"", esc(&p.iter().map(|&x| ops[x].0.clone()).collect::<Vec<_>>().join("; ")))).collect::<Vec<_>>().join(","),
                             esc(&panic_text(e)),
                             esc(&file)
                         );
@@ -343,8 +372,9 @@ fn main() {
             );
         }
         "replay" => {
-            let idx: Vec<usize> = args[3..6].iter().filter(|s| s.as_str() != "-").map(|s| s.parse().expect("index")).collect();
-            let file = &args[6];
+            // <combo> = thread programs separated by ',', operations of a thread by '+'
+            let prog: Vec<Vec<usize>> = args[3].split(',').map(|p| p.split('+').map(|x| x.parse().expect("index")).collect()).collect();
+            let file = &args[4];
             let dir = std::path::Path::new(file).parent().map(|p| p.display().to_string()).unwrap_or_else(|| ".".into());
             let (exp, exp_reset) = match sequential(&ops, &reset, &dir) {
                 Ok(x) => x,
@@ -353,7 +383,7 @@ fn main() {
                     return;
                 }
             };
-            let b = body(&ops, &reset, &Arc::new(exp), &Arc::new(exp_reset), &idx);
+            let b = body(&ops, &reset, &Arc::new(exp), &Arc::new(exp_reset), &prog);
             match catch_unwind(AssertUnwindSafe(|| shuttle::replay_from_file(b, file))) {
                 Ok(_) => println!("NOT-REPRODUCED"),
                 Err(e) => println!("REPRODUCED {}", panic_text(e).replace('\n', " ")),
